@@ -420,6 +420,17 @@ class FakeClient:
             svc.event_hook(rec['key'])
         svc.trace.ev('s3.begin', call=rec['id'], op=op, key=rec['key'])
         try:
+            lat = svc.scripts.get('latency')
+            if lat:
+                # network latency in virtual time: the request stays in
+                # flight while other threads run (the clock only jumps when
+                # every thread is parked), so requests overlap the way they
+                # do on a real network
+                d = lat[(rec['id'] - 1) % len(lat)]
+                if d:
+                    wake = s.clock + d
+                    s.point(lambda: s.clock >= wake, f's3.{op}.latency',
+                            wake_at=wake)
             unknown = [k for k in kwargs if k not in svc.shapes[opname]]
             if unknown:
                 rec['unknown'] = unknown
